@@ -12,7 +12,7 @@ import (
 
 func init() {
 	Add("cyclefiner", func(w io.Writer, repo string) error {
-		var tickers, defs, reqs, expiry, adds, lastArgs [][]string
+		var tickers, defs, reqs, expiry, adds, lastArgs, cycCalls, ctxDerived [][]string
 		for _, c := range []struct{ comp, fn string }{{"refresher", "refresh"}, {"reviver", "revive"}} {
 			s, err := loadSrc(repo, "cmd/swat4master/components/"+c.comp+"/"+c.comp+".go")
 			if err != nil {
@@ -39,7 +39,24 @@ func init() {
 					return true
 				})
 			}
-			_ = runFn
+			// the cycle as the ticker loop calls it, and every derived context of the file: a cycle runs under the component's own
+			// context — no wall-clock bound of its own cuts a long cycle short (servers left without their probe)
+			ast.Inspect(runFn, func(n ast.Node) bool {
+				if call, ok := n.(*ast.CallExpr); ok {
+					if id, ok := call.Fun.(*ast.Ident); ok && id.Name == c.fn {
+						cycCalls = append(cycCalls, []string{s.base(), "run", id.Name, s.args(call.Args)})
+					}
+				}
+				return true
+			})
+			for _, fd := range s.funcs() {
+				ast.Inspect(fd, func(n ast.Node) bool {
+					if call, sel := selCall(n); call != nil && s.t(sel.X) == "context" {
+						ctxDerived = append(ctxDerived, []string{s.base(), fd.Name.Name, s.t(sel), s.args(call.Args)})
+					}
+					return true
+				})
+			}
 			// deadline := <base>.Add(<addend>), and the request's last argument
 			ast.Inspect(cyc, func(n ast.Node) bool {
 				if as, ok := n.(*ast.AssignStmt); ok && len(as.Lhs) == 1 && len(as.Rhs) == 1 {
@@ -90,6 +107,10 @@ func init() {
 		}
 		fmt.Fprintln(w, "/-- every ticker / timer / sleep of refresher.go and reviver.go: (file, function, constructor, arguments) -/")
 		fmt.Fprintf(w, "def cycleTickers : %s :=\n  %s\n", leanTupleType(4), leanTuples(tickers))
+		fmt.Fprintln(w, "/-- the cycle function as the ticker loop of `run` calls it: (file, function, callee, arguments) -/")
+		fmt.Fprintf(w, "def cycleCalls : %s :=\n  %s\n", leanTupleType(4), leanTuples(cycCalls))
+		fmt.Fprintln(w, "/-- every call into package `context` in refresher.go / reviver.go (derived contexts, timeouts): (file, function, callee, arguments) -/")
+		fmt.Fprintf(w, "def cycleContextCalls : %s :=\n  %s\n", leanTupleType(4), leanTuples(ctxDerived))
 		fmt.Fprintln(w, "/-- what gives `now` and `deadline` their value in `refresh` / `revive`: (file, function, identifier, definition) -/")
 		fmt.Fprintf(w, "def cycleDeadlineDefs : %s :=\n  %s\n", leanTupleType(4), leanTuples(defs))
 		fmt.Fprintln(w, "/-- every `deadline := B.Add(E)` of `refresh` / `revive`, taken apart: (file, B, E) -/")
